@@ -20,7 +20,14 @@ sends n open requests in a row (more than 256 = the command channel is full: `ok
 streams are never acknowledged, so beyond 256 pending requests `Control::open_stream()` does not return and only the OUTER
 timer of the request's future can answer it; `sot=` is small in those cases and a `sleep` of timeout + 500 ms follows.
 C08 pulls the area in as well (`oracle_c08`). On a `sot=` connection the driver reads WHICH outbound requests of a
-listening protocol timed out during an operation from the implementation's observation (it has no clock)."""
+listening protocol timed out during an operation from the implementation's observation (it has no clock).
+
+Since the f-round (seeded C07-f1, C08-f1): the long real-time hold ROTATES over the exit paths of the loop (`EXIT_PATHS`,
+`exit_ops`, `long_holds`: one 6 s hold per path with a busy protocol + two with a busy manager in every quick run of C07,
+consecutive in the list = one shard each); family `order` (`order_case`): a protocol's small channel is FULL when a substream
+of it finishes negotiating, then every exit path — in the same poll of the loop or a later one —, then the protocol catches
+up; `oracle_c08` judges the ORDER per protocol (no `Oi`/`Oo`/`X` after `C`) and that a negotiated inbound substream is NOT
+LOST. The family runs in the C08, C06, C07 and C09 mixes."""
 import re
 from .common import bump
 
